@@ -243,9 +243,102 @@ func checkC13Item(c c13ItemCase) (ci caseInfo, err error) {
 	return ci, nil
 }
 
+// lists whose children are large: a list's own length field counts children, not bytes, so a list of items
+// that together exceed 16,777,215 bytes is perfectly constructible and encodable
+type c13NestedCase struct {
+	Kind     string `json:"kind"`
+	Children []int  `json:"children"` // element counts of the child items
+}
+
+func init() { registerReplay("c13nested", checkC13Nested) }
+
+func checkC13Nested(c c13NestedCase) (ci caseInfo, err error) {
+	ci.Nontrivial = true
+	ci.Key = fmt.Sprintf("nested/%s/%v", c.Kind, c.Children)
+	ci.label("nested-large-children")
+	args := make([]interface{}, len(c.Children))
+	total := 0
+	for i, n := range c.Children {
+		args[i] = buildUniform(c.Kind, n)
+		hb, _ := refHeader(c.Kind, n)
+		total += len(hb) + n*model.Width(c.Kind)
+	}
+	var lst ast.ItemNode
+	if p, msg := try(func() { lst = ast.NewListNode(args...) }); p {
+		return ci, fmt.Errorf("list of %d %s items with %v elements refused: %s", len(args), c.Kind, c.Children, msg)
+	}
+	lh, _ := refHeader(model.L, len(args))
+	b := lst.ToBytes()
+	if len(b) != len(lh)+total || !bytes.HasPrefix(b, lh) {
+		return ci, fmt.Errorf("list of %s items with %v elements encodes to %d bytes, want %d (header %x)", c.Kind, c.Children, len(b), len(lh)+total, lh)
+	}
+	msgBytes := ast.NewHSMSDataMessage("", 1, 1, 0, "H->E", lst, 1, []byte{0, 0, 0, 1}).ToBytes()
+	if len(msgBytes) != 14+len(b) {
+		return ci, fmt.Errorf("message around the list encodes to %d bytes, want %d", len(msgBytes), 14+len(b))
+	}
+	dec, ok := hsms.Parse(msgBytes)
+	if !ok || !bytes.Equal(dec.ToBytes(), msgBytes) {
+		return ci, fmt.Errorf("message around a list of %s items with %v elements does not decode back (ok=%v)", c.Kind, c.Children, ok)
+	}
+	return ci, nil
+}
+
+// the limit also governs lists that come into being by expanding an ellipsis
+type c13ExpandCase struct {
+	Trailing int `json:"trailing"` // entries after the ellipsis
+	Repeat   int `json:"repeat"`
+}
+
+func init() { registerReplay("c13expand", checkC13Expand) }
+
+func checkC13Expand(c c13ExpandCase) (ci caseInfo, err error) {
+	ci.Nontrivial = true
+	ci.Key = fmt.Sprintf("expand/%d/%d", c.Trailing, c.Repeat)
+	ci.label("expansion-route")
+	args := []interface{}{ast.NewBinaryNode(), "..."}
+	for i := 0; i < c.Trailing; i++ {
+		args = append(args, ast.NewBinaryNode())
+	}
+	tmpl := ast.NewListNode(args...)
+	want := c.Repeat + 1 + c.Trailing
+	var res ast.ItemNode
+	panicked, msg := try(func() { res = tmpl.FillVariables(map[string]interface{}{"...": c.Repeat}) })
+	if within := want <= model.MaxLen; within == panicked {
+		return ci, fmt.Errorf("expanding <L <B> ... +%d entries> with %d: the result has %d entries (limit 16,777,215), panicked=%v (%s)", c.Trailing, c.Repeat, want, panicked, msg)
+	}
+	if !panicked {
+		lh, _ := refHeader(model.L, want)
+		if res.Size() != want || !bytes.HasPrefix(res.ToBytes(), lh) || len(res.ToBytes()) != len(lh)+2*want {
+			return ci, fmt.Errorf("expanded list has Size %d, %d bytes; want %d entries, header %x", res.Size(), len(res.ToBytes()), want, lh)
+		}
+	}
+	return ci, nil
+}
+
 func TestC13Items(t *testing.T) {
 	shard, nshards := shardInfo()
 	seq := 0
+	nested := []c13NestedCase{
+		{Kind: model.A, Children: []int{model.MaxLen}}, {Kind: model.B, Children: []int{9000000, 9000000}},
+		{Kind: model.U1, Children: []int{model.MaxLen, 1}}, {Kind: model.A, Children: []int{model.MaxLen - 1, 3}},
+		{Kind: model.U4, Children: []int{model.MaxLen / 4, 5}},
+	}
+	for _, c := range nested {
+		seq++
+		if seq%nshards == shard {
+			runCase[c13NestedCase](t, "C13", "c13nested", checkC13Nested, c)
+		}
+	}
+	expands := []c13ExpandCase{{Trailing: 63, Repeat: 300000}, {Trailing: 15, Repeat: 1100000}, {Trailing: 0, Repeat: 70000}, {Trailing: 3, Repeat: 0}, {Trailing: 200, Repeat: 90000}}
+	if isThorough() {
+		expands = append(expands, c13ExpandCase{Trailing: 0, Repeat: model.MaxLen - 1}, c13ExpandCase{Trailing: 0, Repeat: model.MaxLen}, c13ExpandCase{Trailing: 2, Repeat: model.MaxLen - 2})
+	}
+	for _, c := range expands {
+		seq++
+		if seq%nshards == shard {
+			runCase[c13ExpandCase](t, "C13", "c13expand", checkC13Expand, c)
+		}
+	}
 	for _, kind := range model.AllKinds {
 		w := model.Width(kind)
 		counts := map[int]bool{0: true, 1: true}
